@@ -18,6 +18,12 @@ CLAIMED = {
             "generates the grammar (12 focus contexts x all token sequences, component-form product), and judges every result of the real "
             "canonicalize_url by re-parsing and decoding both sides in TLA+ (scheme, userinfo, host, port, path segments, trailing slash, query items, fragment).",
             "Trusted: TLC, Url.tla/Pct.tla/Text.tla (parser cross-checked against urllib per event), IDNA equivalence limited to the oracle's table."),
+    "C02": ("DESIGN.md section 4 / C02",
+            "TLA+ spelling machine (one action per documented-irrelevant rewrite) over abstract base URLs, output register = canonical forms; TLC checks the register is invariant on the reference pipeline; all reachable spellings rendered by TLC, replayed into canonicalize_url, trace spec compares with the base's observed output, idempotence and mode round trips",
+            "TLC explores every spelling within a rewrite-depth bound of 26 abstract URLs (state machine Spelling.tla) and checks 'the canonical "
+            "form never changes' as an invariant of the reference model; the same states, rendered by TLC, are run through the real function "
+            "(12 calls per spelling) and the trace spec requires the observed output register to stay constant, plus idempotence and the four mode equations.",
+            "Trusted: TLC, the guards of the rewrite actions (which characters may be (un)escaped), the 26 base URLs of spec/data/bases.json."),
     "C10": ("DESIGN.md section 4 / C10",
             "implementation-shaped TLA+ model of TrieDict checked by TLC against a finite-map spec (refinement, counters, observers); edge cover of the reachable state graph replayed into the real class; projections validated by TLC trace spec",
             "TLC explores every assignment history over a small key universe (full reachable graph), proves the trie model refines a "
